@@ -98,6 +98,8 @@ def run(prog, rep):
 DF = "_df_to_flodym_array.py"
 FA = "flodym_arrays.py"
 MUTANTS = [
+    {"name": "duplicates-compared-with-values", "path": DF, "find": "        if indices.duplicated().any():", "replace": "        if self.df.duplicated().any():"},
+    {"name": "missing-filled-by-nan_to_num", "path": DF, "find": "self.df[self.format.value_column].fillna(0)", "replace": "np.nan_to_num(self.df[self.format.value_column].to_numpy())"},
     {"name": "duplicates-not-checked", "path": DF, "find": "        if indices.duplicated().any():", "replace": "        if False:"},
     {"name": "extra-items-ignored-by-default", "path": DF, "find": "        if self.allow_extra_values:\n            for dim in self.flodym_array.dims:", "replace": "        if True:\n            for dim in self.flodym_array.dims:"},
     {"name": "missing-rows-tolerated-by-default", "path": DF, "find": "            if len(self.df) != self.flodym_array.size:", "replace": "            if False:"},
